@@ -62,7 +62,9 @@ def mvccStepW (d : Db) (ws : List String) : Db × String :=
       maxBatchSize := argNat kv "maxsize" 0, maxLevels := argNat kv "levels" 7,
       nsOffset := if argStr kv "nsoff" == "" then none else (argStr kv "nsoff").toNat? }
     (Db.init o (argNat kv "now" 0), "ok")
-  | ["now", t] => ({ d with now := t.toNat?.getD d.now }, "ok")
+  | "now" :: t :: _ => ({ d with now := t.toNat?.getD d.now }, "ok")
+  -- the harness waits for the wall clock to pass a pending expiry; the new time arrives as `now T`
+  | "sleepuntil" :: _ => (d, "ok")
   | ["begin", id, upd, rts] =>
     match id.toNat?, upd.toNat?, rts.toNat? with
     | some id, some upd, some rts =>
